@@ -646,6 +646,16 @@ func (q *Query) Echo(s string, n int64) (string, error) {
 	return s + ":" + strconv.FormatInt(n, 10), nil
 }
 
+// EchoRev serves Query.echo too, with its parameters in the other order: an
+// application that registers it late (Root.RegisterField with an explicit
+// argument order) changes how the field is served from then on.
+func (q *Query) EchoRev(n int64, s string) (string, error) {
+	if _, err := q.tr.enter("Query", "echo", map[string]interface{}{"s": s, "n": n, "rev": true}, ""); err != nil {
+		return "", err
+	}
+	return strconv.FormatInt(n, 10) + "<-" + s, nil
+}
+
 // Motto is the reflection method behind Keeper.motto.
 func (k *Keeper) Motto(upper bool) (string, error) {
 	var tr *Tracker
